@@ -534,6 +534,8 @@ structure St where
   ties : List Nat := []        -- oracle resolving the equal-date choices the code leaves to its heaps
   arities : List Nat := []     -- arity of every choice point passed (most recent first); used by the driver's search
   done : Bool := false
+  fired : List (Rat × Timer) := []    -- ghost: (clock, timer) for every timer callback executed
+  popped : List (Rat × HeapE) := []   -- ghost: (clock, entry) for every action completed / latency paid by update_actions_state
   deriving Repr, Inhabited
 
 /-- choose one of `n ≥ 1` candidates -/
@@ -622,9 +624,12 @@ def popWindow : Nat → St → List HeapE → St × List HeapE
     let idx := (List.range s.k.heap.length).filter (fun j => (s.k.heap.getD j default).due s.now)
     if idx.isEmpty then (s, re) else
     let (c, s) := pick idx.length s
-    let j := idx.getD c 0
+    match idx[c]? with
+    | none => (s, re)          -- unreachable: `pick n` answers below `n`
+    | some j =>
     let e := s.k.heap.getD j default
     let k := { s.k with heap := removeNth s.k.heap j }
+    let s := { s with popped := s.popped ++ [(s.now, e)] }
     if e.lat then
       popWindow n { s with k := k } (re ++ [{ e with lat := false, date := s.now + e.rem }])
     else
@@ -662,10 +667,12 @@ def execAll : Nat → St → Bool → St × Bool
       if s.now < top then (s, r) else
       let idx := (List.range s.k.timers.length).filter (fun j => (s.k.timers.getD j default).date == top)
       let (c, s) := pick idx.length s
-      let j := idx.getD c 0
+      match idx[c]? with
+      | none => (s, r)         -- unreachable: `pick n` answers below `n`
+      | some j =>
       let t := s.k.timers.getD j default
       let k := { s.k with timers := removeNth s.k.timers j }
-      execAll n { s with k := k.fire t } true
+      execAll n { s with k := k.fire t, fired := s.fired ++ [(s.now, t)] } true
 
 /-- `do { again = Timer::execute_all(); handle_ended_actions(); } while (again);` -/
 def timersLoop : Nat → St → St
